@@ -56,6 +56,15 @@ class C06(Monitor):
                 err, res = f["traverse"]["result"]
                 if res is not None and not f["oos"]:
                     exp_km += sum(l.distance_km for l in res.experienced_route)
+            # what move() produced for this vehicle is what the step leaves behind (nothing that happens to another vehicle in
+            # the same step takes it back)
+            if len(frames) == 1 and not frames[0]["oos"]:
+                aft = frames[0]["after"]
+                err, res = frames[0]["traverse"]["result"]
+                if res is not None and res.experienced_route and aft is not None:
+                    ctx.count("c06_move_results_compared_with_state")
+                    if v.position != aft.position or abs(v.distance_traveled_km - aft.distance_traveled_km) > 1e-12:
+                        ctx.violate("C06", "move-result-not-in-the-state", f"{v.id} was moved to {aft.position} (odometer {aft.distance_traveled_km}) but the step leaves it at {v.position} (odometer {v.distance_traveled_km})", vehicle=v.id, activity=aname(p))
             d_odo = v.distance_traveled_km - p.distance_traveled_km
             if abs(d_odo - exp_km) > 1e-9 * max(1.0, exp_km):
                 ctx.violate("C06", "odometer-differs-from-driven", f"{v.id} odometer grew by {d_odo} km but drove {exp_km} km", vehicle=v.id, activity=aname(p))
